@@ -53,3 +53,21 @@ impl FileH {
 #[verifier::external_body]
 pub fn zeroed_vec(n: usize) -> (r: Vec<u8>) ensures r@.len() == n { vec![0; n] }
 #[verifier::external_body] pub fn likely(b: bool) -> (r: bool) ensures r == b { b }
+
+// ---- RawMmapSource: the mmap slice after the header as a ghost length ----
+pub tracked struct MW {
+    pub ghost valid: nat,             // stored_len * size: bytes of valid data after the header
+    pub ghost next: nat,              // byte offset (after the header) of the next element the scan has to deliver
+}
+#[verifier::external_body] pub struct ReaderM { _p: core::marker::PhantomData<u8> }
+#[verifier::external_body] pub struct SliceM { _p: core::marker::PhantomData<u8> }
+#[verifier::external_body] #[derive(Clone, Copy)] pub struct PtrM { _p: core::marker::PhantomData<u8> }
+impl RegionIo { #[verifier::external_body] pub fn create_reader(&self) -> ReaderM { unimplemented!() } }
+impl ReaderM { #[verifier::external_body] pub fn prefixed(&self, offset: usize) -> SliceM { unimplemented!() } }
+impl SliceM { #[verifier::external_body] pub fn as_ptr(&self) -> PtrM { unimplemented!() } }
+pub trait RawStrategyM<T>: Sized {
+    // N11: `unsafe { S::read_from_ptr(data, byte_off) }` on the mmap slice after the header: C20: inside the valid data, element-aligned, the next element
+    fn read_from_ptr_at(ptr: PtrM, byte_off: usize, Tracked(w): Tracked<&mut MW>) -> (r: T)
+        requires byte_off + sz::<T>() <= old(w).valid, byte_off == old(w).next, byte_off as int % (sz::<T>() as int) == 0
+        ensures *final(w) == (MW { next: (old(w).next + sz::<T>()) as nat, ..*old(w) });
+}
